@@ -92,6 +92,8 @@ type c19nodeKey struct {
 var c19nodeCache = map[c19nodeKey]*c19Node{}
 
 // c19CustomTypes collects the names of all types with custom marshalers met while building schemas.
+var c19OffConvention = map[string]bool{}
+
 var c19CustomTypes = map[string]bool{}
 
 func c19HasCustom(t reflect.Type) bool {
@@ -147,20 +149,18 @@ func c19NodeOf(t reflect.Type) *c19Node {
 	case reflect.Struct:
 		n.Kind = c19Struct
 		if c19HasCustom(t) {
-			// convention check: all tagged fields come from embedded structs, everything else is json:"-"
-			emb := 0
+			// convention on this tree: all tagged fields of such a type come from embedded structs, everything else is json:"-".
+			// A type that departs from it (custom methods next to tagged fields of its own) is generated from its tags like a
+			// plain struct: the tags are the declared wire shape, and the round-trip oracle does not depend on the guess - if
+			// the custom methods do not honour the tags symmetrically the comparator reports exactly that.
 			for i := 0; i < t.NumField(); i++ {
 				f := t.Field(i)
 				if f.Anonymous && f.Tag.Get("json") == "" {
-					emb++
 					continue
 				}
 				if f.Tag.Get("json") != "-" {
-					panic(fmt.Sprintf("c19 schema: type %v has custom JSON methods and a tagged own field %s: wire shape unknown", t, f.Name))
+					c19OffConvention[t.Name()] = true
 				}
-			}
-			if emb == 0 {
-				panic(fmt.Sprintf("c19 schema: type %v has custom JSON methods but no embedded wire struct", t))
 			}
 			n.Custom = true
 			c19CustomTypes[t.Name()] = true
